@@ -30,7 +30,7 @@ ASSUMPTIONS = ['in-process main() on capture streams (C07 leg 4 confirms equival
 MANIFEST = {
     'technique': 'exhaustive enumeration of the finite configuration matrix on the real command-line entry point',
     'text': 'All 2592 combinations of input type, output format, output mode, colour/HTML and condensed layout, for '
-            'documents with and without differences (quick: 1 document pair per type under the full matrix + 7 branch-targeting pairs under type x format x mode; thorough: all 8 pairs under the full matrix), are run through main(); none '
+            'documents with and without differences (quick: 1 document pair per type under the full matrix + 7 branch-targeting pairs under type x format x mode x colour/html; thorough: all 8 pairs under the full matrix), are run through main(); none '
             'may end in an internal error and the exit status must reflect whether the documents differ.',
     'note': 'The matrix is complete; the documents per cell are few.',
     'design_ref': 'DESIGN.md 4/C13',
@@ -43,7 +43,10 @@ DOCS = [
     # non-string mapping keys (expressible in YAML and pickle only; other types get the string-keyed variant)
     ({80: 'http', True: 'enabled', 1.5: 'x', 'plain': 1}, {80: 'https', False: 'enabled', 2.5: 'x', 'plain': 2}),
     ({'e': {}, 'l': [], 's': '', 'n': None, 'deep': [[], [{}]]}, {'e': [], 'l': {}, 's': 'x', 'deep': [[{}], []]}),
-    ({'t': 'line1\nline2', 'x': '<a&b>"q"', 'u': '\u00e9\u4e2d'}, {'t': 'line1\nline3\n', 'x': '<a&c>\'q\'', 'u': '\u00e8'}),
+    # multi-line strings: edited, and wholly removed from / inserted into lists (a removal and an insertion in one mapping
+    # would be paired into one edit by the matcher)
+    ({'t': 'line1\nline2', 'x': '<a&b>"q"', 'u': '\u00e9\u4e2d', 'lst': ['x', 'r1\nr2'], 'lst2': ['y']},
+     {'t': 'line1\nline3\n', 'x': '<a&c>\'q\'', 'u': '\u00e8', 'lst': ['x'], 'lst2': ['y', 'p\nq\n']}),
     ({'i': -1, 'f': 1.5, 'big': 2 ** 40, 'b': False}, {'i': 1, 'f': -2.25, 'big': 2 ** 40 + 1, 'b': True}),
     ({'colour': [1, 2], 'name': 'x', 'same': 'y'}, {'color': [1, 2], 'nome': 'x', 'same': 'y'}),
 ]
@@ -54,7 +57,7 @@ XMLS = [
     ('<html><body><p class="x">hi</p></body></html>', '<html><body><p>ho</p><br/></body></html>'),
     ('<r><item id="1"/><k/><m>gone</m></r>', '<r><item id="2">hello</item><k>t</k><m/></r>'),
     ('<r><a><b><c>deep</c></b></a></r>', '<r><a/></r>'),
-    ('<r><t>line1\nline2</t><u> padded </u></r>', '<r><t>line1\nline3\nline4</t><u>padded</u></r>'),
+    ('<r><t>line1\nline2</t><u> padded </u><gone>g1\ng2</gone></r>', '<r><t>line1\nline3\nline4</t><u>padded</u></r>'),
     ('<r a="1" b="2" c="3"/>', '<r a="1" b="3" d="4"/>'),
     ('<r x="&lt;&amp;&quot;">a &amp; b &lt; c</r>', '<r x="&gt;&amp;">a &amp; b &gt; c</r>'),
 ]
@@ -64,14 +67,14 @@ CSVS = [
     ('x,y\n1,2\n', 'x,y\n1,3\n'),
     ('"q,1","say ""hi"""\n,\n', '"q,2","say ""ho"""\n,x\n'),
     ('a,b,c\n1\n', 'a\n1,2,3\n'),
-    ('"multi\nline",z\n', '"multi\nlines",z\n'),
+    ('"multi\nline",z\n"gone\nrow",w\nlast,row\n', '"multi\nlines",z\nlast,row\n'),
     ('1,2\n3,4\n', '3,4\n1,2\n'),
     ('\n\n', 'a\n'),
 ]
 
 
 PICKLE_DOCS = {
-    5: ({'b': b'ab', 't': (1, (2, 3)), 's': {1, 2}}, {'b': b'ac', 't': (1, (2, 4)), 's': {2, 3}}),
+    5: ({'b': b'ab', 't': (1, (2, 3)), 's': {1, 2}, b'id': 7, b'was': 1}, {'b': b'ac', 't': (1, (2, 4)), 's': {2, 3}, b'id': 7, b'now': 2}),
     6: ([b'x', 'x', bytearray(b'xy'), complex(1, 2)], ['x', b'x', bytearray(b'xz'), complex(1, 3)]),
     2: (b'some bytes', b'same bytes'),
 }
@@ -121,8 +124,9 @@ EXT = {'json': 'json', 'json5': 'json5', 'yaml': 'yml', 'csv': 'csv', 'xml': 'xm
 
 
 def configs(tier):
-    # document pair 0 (quick) / 0-2 (thorough) under the complete matrix; the other pairs, which target particular formatter
-    # branches, under every input type x output format x mode (colour/html/layout do not select formatter branches)
+    # quick: document pair 0 under the complete matrix, the other pairs (which target particular formatter branches) under
+    # every input type x output format x mode x colour/html, uncondensed; thorough: every pair under the complete matrix.
+    # (Colour does select formatter branches: combining marks vs ANSI contexts, YAML block scalars under a colour.)
     nfull = 1 if tier == 'quick' else len(DOCS)
     for typ in TYPES:
         for fmt in (None,) + TYPES:
@@ -136,7 +140,7 @@ def configs(tier):
                                     for same in (False, True):
                                         yield {'type': typ, 'format': fmt, 'mode': mode, 'render': rend, 'layout': lay,
                                                'pair': 7 if flags and flags[0] in ('-k', '--dict-strategy') else 0, 'identical': same, 'flags': flags}
-                            if which >= nfull and (rend != RENDER[0] or lay != LAYOUT[0]) and not (tier != 'quick' and rend == RENDER[2] and lay == LAYOUT[0]):
+                            if which >= nfull and lay != LAYOUT[0]:
                                 continue
                             for same in (False, True):
                                 yield {'type': typ, 'format': fmt, 'mode': mode, 'render': rend, 'layout': lay,
@@ -152,6 +156,22 @@ def frames(tb_text):
             fn = line.rsplit(' in ', 1)[-1]
             out.append(f'{f}:{fn}')
     return out
+
+
+def contains_null(typ, cfg):
+    def has(v):
+        if v is None:
+            return True
+        if isinstance(v, dict):
+            return any(has(k) or has(x) for k, x in v.items())
+        if isinstance(v, (list, tuple, set)):
+            return any(has(x) for x in v)
+        return False
+    if typ in ('xml', 'html', 'csv', 'plist'):
+        return False
+    which = cfg['pair']
+    pair = PICKLE_DOCS[which] if (typ == 'pickle' and which in PICKLE_DOCS) else DOCS[which]
+    return has(pair[0]) or (not cfg['identical'] and has(pair[1]))
 
 
 def evaluate(cfg):
@@ -173,7 +193,11 @@ def evaluate(cfg):
         inner = fr[-1] if fr else 'unknown'
         via = next((f for f in reversed(fr[:-1]) if not f.startswith(('tree.py', 'formatter.py', 'printer.py', 'sequences.py',
                                                                       'edits.py', '__main__.py', 'graphtage.py'))), 'n/a')
-        return {'key': f'internal_error {o.exc} @ {inner} via {via} : input {typ}, format {cfg["format"] or "(own)"}',
+        feat = ''
+        if cfg['format'] == 'plist' and inner == 'plist.py:write_obj':
+            # plist has no null: the one recorded finding is "a document that contains null cannot be rendered as plist"
+            feat = ', document contains null' if contains_null(typ, cfg) else ', document without null'
+        return {'key': f'internal_error {o.exc} @ {inner} via {via} : input {typ}, format {cfg["format"] or "(own)"}{feat}',
                 'detail': f'mode {mode}: ' + ' '.join(argv) + '\n' + o.tb}, None
     if 'Traceback (most recent call last)' in o.err:
         return {'key': f'traceback_on_stderr @ __main__.main : {tag}', 'detail': o.err[-800:]}, None
